@@ -350,6 +350,10 @@ func coqCase(id int, in Input, ob Obs) string {
 
 func main() {
 	o := hx.ParseArgs()
+	if os.Getenv("VERIF_C08_CHILD") == "accept-fault" {
+		acceptFaultChild(o.Out)
+		return
+	}
 	r := hx.NewRand(o.Seed)
 	var ins []Input
 	if o.Only != "" {
@@ -444,6 +448,24 @@ func main() {
 				id := len(cases)
 				dist["socket-listener:"+sin[j].Proto]++
 				cases = append(cases, hx.Case{ID: id, Kind: "socket", Input: sin[j], Obs: sob[j], Crash: scr[j], Coq: coqCase(id, sin[j], sob[j])})
+			}
+		}
+	}
+	if o.Only == "" {
+		fr, err := acceptFault(o)
+		switch {
+		case err != nil:
+			// the child itself died: the listener cannot have kept serving
+			id := len(cases)
+			in := Input{Proto: "tcp", Svcs: []Svc{{ID: 3, ReadSize: 512}}, Segs: []hx.B{hx.B("B-during-the-accept-failure")}}
+			cases = append(cases, hx.Case{ID: id, Kind: "accept-fault", Input: in, Obs: Obs{}, Crash: err.Error(), Coq: coqCase(id, in, Obs{})})
+		case fr.Note != "":
+			dist["accept-fault-skipped: "+fr.Note]++
+		default:
+			for j := range fr.Ins {
+				id := len(cases)
+				dist["accept-fault"]++
+				cases = append(cases, hx.Case{ID: id, Kind: "accept-fault", Input: fr.Ins[j], Obs: fr.Obs[j], Crash: fr.Crashes[j], Coq: coqCase(id, fr.Ins[j], fr.Obs[j])})
 			}
 		}
 	}
